@@ -45,6 +45,9 @@ func (e WireEvent) String() string {
 type Net struct {
 	Conns []*Conn
 	Trace []WireEvent
+	// EOFWriteErrors: a write on a broken link fails with an error that wraps io.EOF (some
+	// transports report a vanished peer that way) instead of the EPIPE-like ErrLinkDown.
+	EOFWriteErrors bool
 	// PipeErrors: a locally closed transport reports io.ErrClosedPipe (net.Pipe) instead of the
 	// socket-style *net.OpError wrapping net.ErrClosed.
 	PipeErrors bool
@@ -116,6 +119,17 @@ func (e WireEvent) Sent() bool { return e.Dir == '>' && !strings.HasPrefix(e.Not
 // ErrLinkDown is returned by Write on a dead link.
 var ErrLinkDown = errors.New("env: write on broken link (EPIPE)")
 
+// ErrLinkDownEOF is the flavour of the same event that wraps io.EOF (Net.EOFWriteErrors).
+var ErrLinkDownEOF = fmt.Errorf("env: write on broken link: %w", io.EOF)
+
+// LinkDownErr returns the write error of a broken link for this environment.
+func (n *Net) LinkDownErr() error {
+	if n.EOFWriteErrors {
+		return ErrLinkDownEOF
+	}
+	return ErrLinkDown
+}
+
 // ErrClosed is returned by Read/Write after the local side closed the transport.  It is shaped like
 // what a real socket returns ("use of closed network connection": a *net.OpError wrapping
 // net.ErrClosed), because library code may inspect it with errors.Is.
@@ -136,10 +150,11 @@ type Conn struct {
 	Net        *Net
 	ID         int
 	Peer       Peer
-	Chunked    bool // deliver every Write in two chunks with a scheduling point in between
-	ReadMax    int  // >0: a Read returns at most this many bytes (short reads: one TCP segment per byte)
-	FailWrites bool // every Write fails with an error and reaches nobody, while the read side stays open and silent (half-dead link)
-	Stalled    bool // the peer stopped reading and the send buffer is full: Write blocks until the transport is closed locally
+	Chunked    bool  // deliver every Write in two chunks with a scheduling point in between
+	CloseErr   error // returned by Close (the transport is closed all the same), e.g. a failed TLS / WebSocket closing handshake
+	ReadMax    int   // >0: a Read returns at most this many bytes (short reads: one TCP segment per byte)
+	FailWrites bool  // every Write fails with an error and reaches nobody, while the read side stays open and silent (half-dead link)
+	Stalled    bool  // the peer stopped reading and the send buffer is full: Write blocks until the transport is closed locally
 	in         []byte
 	eof        bool
 	closed     bool
@@ -203,7 +218,7 @@ func (c *Conn) Write(p []byte) (int, error) {
 		note := NotSent + "write on transport closed by the client fails"
 		err := c.closedErr()
 		if !c.closed {
-			note, err = NotSent+"write on dead link fails", ErrLinkDown
+			note, err = NotSent+"write on dead link fails", c.Net.LinkDownErr()
 		}
 		pk, _, _ := Decode(cp)
 		c.Net.log(WireEvent{Conn: c.ID, Dir: '>', Pkt: pk, Raw: cp, Note: note})
@@ -258,7 +273,7 @@ func (c *Conn) Close() error {
 	c.closed = true
 	c.ClosedAt = vrt.Now()
 	c.Net.log(WireEvent{Conn: c.ID, Dir: '!', Note: "closed by client"})
-	return nil
+	return c.CloseErr
 }
 
 // Closed reports whether the client closed the transport.
